@@ -8,7 +8,7 @@ CONSTANTS
   KVals = {2}
   Idents = {11}
   VModes = {"accept", "reject"}
-  NModes = {"identity", "idraise"}
+  NModes = {"identity", "rename", "idraise"}
   RenFrom = "a"
   RenTo = "c"
   MaxOpens = 3
